@@ -124,7 +124,19 @@ impl<'a, T> ManualExec<'a, T> {
         let mut cx = Context::from_waker(&waker);
         let prev = crate::recstore::current_task();
         crate::recstore::set_current_task(i as u32 + 1);
-        let r = fut.as_mut().poll(&mut cx);
+        let mut r = fut.as_mut().poll(&mut cx);
+        // A cooperative yield (`tokio::task::yield_now`) inside a runtime context hands its wake-up
+        // to the runtime's scheduler, which never gets control while this executor polls by hand:
+        // the task would look blocked for ever (false "deadlock" on the benign change C05-3, an
+        // extra yield between two steps of a call). A task that returned Pending WITHOUT having
+        // been woken is therefore polled again right away (up to 64 times) - spurious polls, which the Future
+        // contract allows: a yield completes, a task really waiting for a lock or for another task
+        // stays Pending. (A task parked at a RecStore gate wakes itself and is not polled again.)
+        let mut spurious = 0;
+        while r.is_pending() && !t.flag.woken.load(Ordering::SeqCst) && spurious < 64 {
+            spurious += 1;
+            r = fut.as_mut().poll(&mut cx);
+        }
         crate::recstore::set_current_task(prev);
         match r {
             Poll::Ready(v) => {
